@@ -206,6 +206,12 @@ impl ScriptCase {
                 Err(e) => format!("{} ;; parseerr {} {}", result, perr_kind(&e.kind()), e.location().line()),
                 Ok(_) => {
                     for l in &self.labels2 {
+                        if l == "@shutdown" {
+                            // every session opened so far is shut down now; those opened afterwards (and,
+                            // the map being kept, the old ones once more) at the end
+                            let _ = catch_unwind(AssertUnwindSafe(|| runner.shutdown()));
+                            continue;
+                        }
                         runner.add_label(l);
                     }
                     let r2 = catch_unwind(AssertUnwindSafe(|| runner.run_script_with_name(t2, "t2.slt")));
